@@ -8,12 +8,25 @@ RULE = ('per listed module: corpus+synthesised valid numbers (incl. every IBAN r
         'neighbourhood: every position x every other character of the same class (digit->9, letter->25) and, for the '
         'transposition modules, every adjacent pair of different digits swapped; oracle is_valid(neighbour) is False; '
         'distinct by (module, number, position, replacement)')
-ASSUME = ['module list fixed by reading each validator: the check covers every character of the canonical form (DESIGN C17)',
+ASSUME = ['module list fixed by reading each validator: the check covers every character of the canonical form (DESIGN C17); for '
+          'es.cif, ca.bn, id.npwp, in_.epic, se.personnummer, fr.siret only the positions the Luhn check covers are substituted',
           'no.kontonr: 7-digit accounts only; imei: 15-digit only']
 
 SUBST = ['isbn', 'ean', 'issn', 'ismn', 'imei', 'isni', 'iban', 'lei', 'iso11649', 'grid',
          'ca.sin', 'fr.siren', 'il.idnr', 'il.hp', 'se.orgnr', 'it.iva', 'gr.amka', 'gn.nifp', 'za.idnr', 'za.tin',
          'at.uid', 'no.kontonr', 'in_.gstin', 'in_.aadhaar', 'in_.vid', 'hr.oib', 'de.idnr', 'de.vat', 'rs.pib', 'ma.ice']
+# national numbers in which the generic check covers only part of the canonical form (read from each validate()): the
+# positions the Luhn check protects; the other characters (organisation letter, programme suffix, century) are not in the
+# property's scope
+PARTIAL = {
+    'es.cif': lambda v: range(1, 9),
+    'ca.bn': lambda v: range(0, 9),
+    'id.npwp': lambda v: range(0, 9) if len(v) == 15 else range(1, 10) if v[0] == '0' else (),
+    'in_.epic': lambda v: range(3, 10),
+    'se.personnummer': lambda v: [i for i in range(len(v) - 11, len(v)) if i != len(v) - 5],
+    'fr.siret': lambda v: range(len(v)) if not v.startswith('356000000') else (),
+}
+SUBST += sorted(PARTIAL)
 SWAP = ['isbn', 'issn', 'isni', 'iban', 'lei', 'iso11649', 'in_.aadhaar', 'in_.vid']
 
 
@@ -43,13 +56,16 @@ def prop(case, res):
     res.hist['numbers:' + name] += 1
     if 'X' in x[-1:]:
         res.hist['class:check-character-X'] += 1
+    covered = set(PARTIAL[name](x)) if name in PARTIAL else None
     for i, a in enumerate(x):
         alpha = gen.cls(a)
-        if not alpha:
+        if not alpha or (covered is not None and i not in covered):
             continue
         for b in alpha:
             if b == a:
                 continue
+            if name == 'fr.siret' and (x[:i] + b + x[i + 1:]).startswith('356000000'):
+                continue  # La Poste establishments use another rule
             res.evals += 1
             res.nontrivial_extra += 1
             y = x[:i] + b + x[i + 1:]
@@ -98,7 +114,10 @@ def shard(a):
     # the two characters before the last one run through every pair of their classes (check character repaired): every
     # value of the running checksum, and with it every check character, occurs (a check of 0 / 10 / 'X' / a digit where
     # the corpus shows a letter)
-    for v in gen.pool(name)[:1]:
+    shapes = {}
+    for v in gen.pool(name) + gen.edge_pool(name):
+        shapes.setdefault((len(v), ''.join('d' if c.isdigit() else 'a' for c in v)), v)
+    for v in list(shapes.values())[:4]:
         if len(v) < 5:
             continue
         p1, p2 = len(v) - 3, len(v) - 2
